@@ -155,9 +155,9 @@ class NpProxy:
             for i in range(flat.size):
                 if type(flat[i]) is int:
                     flat[i] = float(flat[i])
-            return a
+            return a.view(SymArray)
         if _active() and dtype is not None and _float_dtype(dtype) and isinstance(obj, _np.ndarray) and obj.dtype == object:
-            return _np.array(obj, dtype=object)
+            return _np.array(obj, dtype=object).view(SymArray)
         return _np.array(obj, dtype=dtype, **kw)
 
     def asarray(self, obj, dtype=None, **kw):
@@ -364,12 +364,36 @@ class NpProxy:
 
 
 class SymArray(_np.ndarray):
-    """object ndarray whose astype(int/float) keeps symbolic entries (np.ceil(...).astype(int) in rpylib)"""
+    """object ndarray whose astype(int/float) keeps symbolic entries: float -> identity; integer dtype -> elementwise truncation towards
+    zero, wrapped modulo 2^bits for the narrow integer types (what a C cast of a float array does on this platform for in-range
+    magnitudes); entries that are already integers are kept (np.ceil(...).astype(int) in rpylib)"""
+
+    def __array_wrap__(self, out, context=None, return_scalar=False):
+        if getattr(out, "ndim", 1) == 0:  # reductions give the element itself, as they do for a plain object ndarray
+            return out[()]
+        return _np.asarray(out).view(SymArray)
 
     def astype(self, dtype, *a, **kw):
-        if _has_sym(_np.asarray(self)) and (_int_dtype(dtype) or _float_dtype(dtype)):
+        base = _np.asarray(self)
+        if base.dtype == object and _has_sym(base) and _float_dtype(dtype):
             return self
-        return _np.asarray(self).astype(dtype, *a, **kw)
+        if base.dtype == object and _has_sym(base) and _int_dtype(dtype):
+            bits = _np.dtype(dtype).itemsize * 8
+            signed = _np.issubdtype(_np.dtype(dtype), _np.signedinteger)
+            out = _np.empty(base.shape, dtype=object)
+            fo, fx = out.reshape(-1), base.reshape(-1)
+            for i in range(fx.size):
+                v = fx[i]
+                if is_sym(v):
+                    v = v if isinstance(v, SymInt) else v.__trunc__()
+                else:
+                    v = int(v)
+                if bits < 64:
+                    half = 2 ** (bits - 1) if signed else 0
+                    v = (v + half) % (2**bits) - half
+                fo[i] = v
+            return out.view(SymArray)
+        return base.astype(dtype, *a, **kw)
 
 
 def _obj_map(f, x):
